@@ -598,6 +598,22 @@ func containers() *core.Family {
 	}
 }
 
+// one construct nested very deep (gen.DeepChains): the renderer and the parser keep stacks,
+// counters and masks whose capacity small trees never reach.
+func deepChains(tier string) *core.Family {
+	all := gen.DeepChains(gen.DeepDepths(tier))
+	return &core.Family{
+		Name: "deep-chains",
+		Desc: fmt.Sprintf("%d expressions: each nesting construct of the grammar (prefix-operator chains in 12 mixtures of - and !, access / index / method chains, nested sets, records, method arguments, left- and right-nested binary operators, if chains) at depths %v", len(all), gen.DeepDepths(tier)),
+		N:    int64(len(all)),
+		Run: func(t *core.T, i int64) {
+			name := all[i].Name
+			checkExpr(t, "deep:"+name[:strings.LastIndex(name, "/")], all[i].E, true)
+			t.Sample(name)
+		},
+	}
+}
+
 func Check() *core.Check {
 	return &core.Check{
 		ID:        "C08",
@@ -610,7 +626,7 @@ func Check() *core.Check {
 			full := gen.Leaves(gen.V)
 			small := gen.Leaves(gen.W)
 			fams := []*core.Family{heads(), containers(), depth1(full, "depth1-values")}
-			fams = append(fams, longLiterals())
+			fams = append(fams, longLiterals(), deepChains(tier))
 			if tier == "thorough" {
 				fams = append(fams, arithmetic(4))
 			} else {
